@@ -25,7 +25,7 @@ RULE = ('seeded stratified workload: section (ops/conv/funcs/iv/sum/pickle/matri
 ASSUMPTIONS = ['exactq.is_canonical states the canonical form exactly as the property does (and is not stricter)',
                'descriptors on the per-context number classes see every store (slots _mpf_/_mpc_, attributes _mpi_/_mpci_)',
                'the harness injects only canonical operands (exactq.canon) through make_mpf / make_mpc']
-SHARD_TIMEOUT = {'quick': 400, 'thorough': 2400}
+SHARD_TIMEOUT = {'quick': 900, 'thorough': 3000}       # wall-clock watchdog (generous: the machine may be shared)
 LEVEL_TEXT = ('exploration: every raw value stored into mpf/mpc/interval objects of mp, two clones and iv, and every raw '
               'tuple returned by ~235 libmp primitives, is checked against the canonical-form predicate while a hostile '
               'workload runs (quick ~2*10^6 stores + ~10^7 primitive returns; thorough adds the repository test-suite '
@@ -36,9 +36,9 @@ LEVEL_NOTE = ('trusted base: vf/exactq.py predicate and exact comparison; values
 TECHNIQUE = 'runtime invariant monitor: store hooks + sys.monitoring return taps, predicate oracle, equal-value twin oracle'
 
 N_SHARDS = 16
-CASES = {'quick': 6000, 'thorough': 40000}
+CASES = {'quick': 6000, 'thorough': 24000}
 CALL_CAP = {'quick': 1.0, 'thorough': 3.0}
-SHARD_CPU_BUDGET = {'quick': 150, 'thorough': 1500}      # CPU seconds per shard; normal use is ~35 / ~250
+SHARD_CPU_BUDGET = {'quick': 100, 'thorough': 900}       # CPU seconds per shard; normal use is ~35 / ~150
 SECTIONS = ['ops', 'conv', 'funcs', 'iv', 'sum', 'pickle', 'matrix', 'carry', 'far', 'mulint', 'twin', 'funcs', 'ops',
             'funcs', 'carry', 'iv']
 # Primitives whose contract is NOT "returns a normalised raw value" would be listed here with the reason (their returns
@@ -1060,7 +1060,7 @@ def run_cases(env, r, n, shard_index, only=None):
             rec.undecided('shard CPU budget exhausted before all cases were run', {'cases_run': i, 'planned': n})
             break
         try:
-            with U.time_limit(env.cap * 4):       # no single case may hang the shard (inner caps are shorter)
+            with U.time_limit(env.cap * 2):       # no single case may hang the shard (inner caps are shorter)
                 got = SEC[sec](env, r, j)
             if got is None:
                 continue
